@@ -1,2 +1,1329 @@
-// Package c08 binds the TLA+ specification of property C08 to the Go code.
+// Package c08 binds spec/hosts/HostsParse.tla and HostsStorage.tla (property
+// C08) to hostsfile.Parse and hostsfile.DefaultStorage.
 package c08
+
+import (
+	"bytes"
+	"encoding/json"
+	"errors"
+	"fmt"
+	"io"
+	"math/rand/v2"
+	"net/netip"
+	"os"
+	"slices"
+	"sort"
+	"strconv"
+	"strings"
+	"sync"
+
+	"github.com/AdguardTeam/golibs/hostsfile"
+	"github.com/AdguardTeam/golibs/netutil"
+
+	"verifharness/internal/c07"
+	"verifharness/internal/vh"
+)
+
+func init() {
+	vh.Register("c08", "replay-storage", replayStorage)
+	vh.Register("c08", "replay-parse", replayParse)
+	vh.Register("c08", "record-parse", recordParse)
+	vh.Register("c08", "record-storage", recordStorage)
+	vh.Register("c08", "replay-one", replayOne)
+}
+
+// replayOne re-executes the input of a replay file written by bin/check
+// (a Parse call with its reader behaviour, or an Add path) and prints what
+// the code does next to what the specification predicted.
+func replayOne(args []string) error {
+	if len(args) != 1 {
+		return fmt.Errorf("usage: replay-one <replay.json>")
+	}
+	raw, err := os.ReadFile(args[0])
+	if err != nil {
+		return err
+	}
+	var r struct {
+		Key    string `json:"key"`
+		What   string `json:"what"`
+		Detail struct {
+			Bytes       *string         `json:"bytes"`
+			Plan        []int           `json:"plan"`
+			EOFWithData bool            `json:"eof_with_data"`
+			SpecLines   json.RawMessage `json:"spec_lines"`
+			Ops         []stOp          `json:"ops"`
+			Ops2        []stOp          `json:"ops2"`
+			SpecNames   json.RawMessage `json:"spec_names"`
+			SpecAddrs   json.RawMessage `json:"spec_addrs"`
+			SpecEqual   string          `json:"spec_equal"`
+		} `json:"detail"`
+	}
+	if err := json.Unmarshal(raw, &r); err != nil {
+		return err
+	}
+	fmt.Printf("key:  %s\nwas:  %s\n", r.Key, r.What)
+	d := r.Detail
+	switch {
+	case d.Bytes != nil:
+		named := strings.Contains(r.Key, "named reader")
+		for _, nm := range []bool{named} {
+			set := &recSet{}
+			name := ""
+			if nm {
+				name = "the-source"
+			}
+			perr := hostsfile.Parse(set, newReader([]byte(*d.Bytes), frag{plan: d.Plan, eofWithData: d.EOFWithData}, name, nm), nil)
+			fmt.Printf("input %s\nreader plan %v eof_with_data=%v named=%v\nspecification: %s\n", strconv.QuoteToASCII(*d.Bytes), d.Plan, d.EOFWithData, nm, d.SpecLines)
+			for i, a := range set.adds {
+				fmt.Printf("code: Add #%d {%v %q Source=%q}\n", i+1, a.Addr, a.Names, a.Source)
+			}
+			for _, iv := range set.invs {
+				fmt.Printf("code: HandleInvalid(%q, %v)\n", iv.src, iv.err)
+			}
+			fmt.Printf("code: Parse returned %v\n", perr)
+		}
+	case d.Ops != nil:
+		for ci := range stConcs {
+			c := &stConcs[ci]
+			if !strings.Contains(r.Key, fmt.Sprintf("x=%v y=%v a=%s ", c.addr["x"], c.addr["y"], c.name["a"])) {
+				continue
+			}
+			s, s2 := c.build(d.Ops), c.build(d.Ops2)
+			fmt.Printf("path %s\nspecification: names=%s addrs=%s equal(%s)=%s\n", opsKey(d.Ops), d.SpecNames, d.SpecAddrs, opsKey(d.Ops2), d.SpecEqual)
+			for _, a := range []string{"x", "y"} {
+				fmt.Printf("code: ByAddr(%v) = %q\n", c.addr[a], s.ByAddr(c.addr[a]))
+			}
+			for _, n := range []string{"a", "A", "b"} {
+				fmt.Printf("code: ByName(%q) = %v\n", c.name[n], s.ByName(c.name[n]))
+			}
+			s.RangeNames(func(a netip.Addr, ns []string) bool { fmt.Printf("code: RangeNames -> %v %q\n", a, ns); return true })
+			s.RangeAddrs(func(h string, as []netip.Addr) bool { fmt.Printf("code: RangeAddrs -> %q %v\n", h, as); return true })
+			fmt.Printf("code: Equal = %v\n", s.Equal(s2))
+		}
+	default:
+		fmt.Println("(a rejected trace: re-run the check with the same VERIF_SEED to regenerate it)")
+	}
+	return nil
+}
+
+// =================================================================== storage
+
+type stOp struct {
+	A string   `json:"a"`
+	N []string `json:"n"`
+}
+
+// strMap is a TLA+ function with string domain; ToJson prints the empty
+// function as [].
+type strMap map[string][]string
+
+func (m *strMap) UnmarshalJSON(b []byte) error {
+	*m = strMap{}
+	if len(b) > 0 && b[0] == '[' {
+		var arr []any
+		if err := json.Unmarshal(b, &arr); err != nil || len(arr) != 0 {
+			return fmt.Errorf("map printed as a non-empty array: %s", b)
+		}
+		return nil
+	}
+	return json.Unmarshal(b, (*map[string][]string)(m))
+}
+
+type stVec struct {
+	Ops   []stOp `json:"ops"`
+	Ops2  []stOp `json:"ops2"`
+	Names strMap `json:"names"`
+	Addrs strMap `json:"addrs"`
+	Eq    string              `json:"eq"`
+	Self  string              `json:"self"`
+}
+
+// stConc is one concretisation of the abstract addresses x, y and names a, A, b.
+type stConc struct {
+	addr    map[string]netip.Addr
+	name    map[string]string
+	other   netip.Addr          // an address never added
+	queries map[string][]string // lowered key of the model -> every spelling ByName is asked with
+}
+
+func mustAddr(s string) netip.Addr { return netip.MustParseAddr(s) }
+
+var stConcs = func() []stConc {
+	base := []struct {
+		x, y, z string
+		a, A, b string
+	}{
+		{"1.2.3.4", "::1", "4.3.2.1", "host.example", "HOST.Example", "other.example"},
+		{"fe80::1%eth0", "fe80::1", "fe80::1%eth1", "пример.рф", "ПРИМЕР.РФ", "bücher.example"},
+		{"::ffff:1.2.3.4", "1.2.3.4", "::1.2.3.4", "a", "A", "b"},
+	}
+	var out []stConc
+	for _, c := range base {
+		for _, swap := range []bool{false, true} {
+			x, y := c.x, c.y
+			if swap {
+				x, y = y, x
+			}
+			sc := stConc{
+				addr:    map[string]netip.Addr{"x": mustAddr(x), "y": mustAddr(y)},
+				name:    map[string]string{"a": c.a, "A": c.A, "b": c.b},
+				other:   mustAddr(c.z),
+				queries: map[string][]string{},
+			}
+			for key, members := range lowerKeyMembers {
+				for _, m := range members {
+					sc.queries[key] = append(sc.queries[key], caseVariants(sc.name[m])...)
+				}
+			}
+			out = append(out, sc)
+		}
+	}
+	return out
+}()
+
+// lowerKeyMembers: the spellings of each lowered key of the model.
+var lowerKeyMembers = map[string][]string{"a": {"a", "A"}, "b": {"b"}}
+
+func (c *stConc) names(ns []string) []string {
+	out := make([]string, len(ns))
+	for i, n := range ns {
+		out[i] = c.name[n]
+	}
+	return out
+}
+
+func (c *stConc) addrs(as []string) []netip.Addr {
+	out := make([]netip.Addr, len(as))
+	for i, a := range as {
+		out[i] = c.addr[a]
+	}
+	return out
+}
+
+func (c *stConc) build(ops []stOp) *hostsfile.DefaultStorage {
+	s, _ := hostsfile.NewDefaultStorage()
+	for _, op := range ops {
+		s.Add(&hostsfile.Record{Addr: c.addr[op.A], Names: c.names(op.N), Source: "src"})
+	}
+	return s
+}
+
+// caseVariants returns spellings of n that differ in letter case only.
+func caseVariants(n string) []string {
+	out := []string{n, strings.ToUpper(n), strings.ToLower(n)}
+	// alternate case of the letters
+	r := []rune(n)
+	for i := range r {
+		if i%2 == 0 {
+			r[i] = []rune(strings.ToUpper(string(r[i])))[0]
+		} else {
+			r[i] = []rune(strings.ToLower(string(r[i])))[0]
+		}
+	}
+	return append(out, string(r))
+}
+
+func eqVerdictOK(got bool, want string) bool {
+	switch want {
+	case "T":
+		return got
+	case "F":
+		return !got
+	default:
+		return true
+	}
+}
+
+// checkStorage compares every query of s with the maps the specification
+// predicts.  It returns "" or the first disagreement.
+func checkStorage(s *hostsfile.DefaultStorage, c *stConc, names, addrs map[string][]string) string {
+	// ByAddr
+	for _, a := range []string{"x", "y"} {
+		got := s.ByAddr(c.addr[a])
+		want := c.names(names[a])
+		if !slices.Equal(got, want) {
+			return fmt.Sprintf("ByAddr(%v) = %q, want %q", c.addr[a], got, want)
+		}
+	}
+	if got := s.ByAddr(c.other); len(got) != 0 {
+		return fmt.Sprintf("ByAddr(%v) = %q for an address never added", c.other, got)
+	}
+	// ByName, every spelling
+	for key, qs := range c.queries {
+		want := c.addrs(addrs[key])
+		for _, q := range qs {
+			got := s.ByName(q)
+			if !slices.Equal(got, want) {
+				return fmt.Sprintf("ByName(%q) = %v, want %v", q, got, want)
+			}
+		}
+	}
+	if got := s.ByName("nosuch.example"); len(got) != 0 {
+		return fmt.Sprintf("ByName(nosuch.example) = %v", got)
+	}
+	// RangeNames: exactly the addresses with names, each once.
+	seenA := map[netip.Addr]bool{}
+	bad := ""
+	s.RangeNames(func(a netip.Addr, ns []string) bool {
+		if seenA[a] {
+			bad = fmt.Sprintf("RangeNames visits %v twice", a)
+		}
+		seenA[a] = true
+		var abs string
+		for k, v := range c.addr {
+			if v == a {
+				abs = k
+			}
+		}
+		if want := c.names(names[abs]); abs == "" || len(want) == 0 {
+			bad = fmt.Sprintf("RangeNames visits %v (names %q): no record with a name was added for it", a, ns)
+		} else if !slices.Equal(ns, want) {
+			bad = fmt.Sprintf("RangeNames visits %v with %q, want %q", a, ns, want)
+		}
+		return true
+	})
+	if bad != "" {
+		return bad
+	}
+	if len(seenA) != len(names) {
+		return fmt.Sprintf("RangeNames visits %d addresses, want %d", len(seenA), len(names))
+	}
+	// RangeAddrs: exactly the names (up to letter case), each once.
+	seenN := map[string]bool{}
+	s.RangeAddrs(func(h string, as []netip.Addr) bool {
+		low := strings.ToLower(h)
+		if seenN[low] {
+			bad = fmt.Sprintf("RangeAddrs visits %q twice (up to case)", h)
+		}
+		seenN[low] = true
+		var key string
+		for k, members := range lowerKeyMembers {
+			if strings.ToLower(c.name[members[0]]) == low {
+				key = k
+			}
+		}
+		if want := c.addrs(addrs[key]); key == "" || len(want) == 0 {
+			bad = fmt.Sprintf("RangeAddrs visits %q (addresses %v): no record carried that name", h, as)
+		} else if !slices.Equal(as, want) {
+			bad = fmt.Sprintf("RangeAddrs visits %q with %v, want %v", h, as, want)
+		}
+		return true
+	})
+	if bad != "" {
+		return bad
+	}
+	if len(seenN) != len(addrs) {
+		return fmt.Sprintf("RangeAddrs visits %d names, want %d", len(seenN), len(addrs))
+	}
+	return ""
+}
+
+func opsKey(ops []stOp) string {
+	var b strings.Builder
+	for _, o := range ops {
+		fmt.Fprintf(&b, "Add(%s:%s);", o.A, strings.Join(o.N, ","))
+	}
+	return b.String()
+}
+
+func replayStorage(args []string) error {
+	if len(args) != 2 {
+		return fmt.Errorf("usage: replay-storage <vectors> <result>")
+	}
+	res, err := vh.NewResult(args[1])
+	if err != nil {
+		return err
+	}
+	var mu sync.Mutex
+	evals, adds := 0, 0
+	n, dd, err := c07.ParallelVectors(args[0], func(raw []byte) error {
+		var v stVec
+		if err := json.Unmarshal(raw, &v); err != nil {
+			return err
+		}
+		if v.Self != "T" {
+			return fmt.Errorf("spec: Equal3(st, st) = %s", v.Self)
+		}
+		for ci := range stConcs {
+			c := &stConcs[ci]
+			var what string
+			pv, panicked := vh.Try(func() {
+				s := c.build(v.Ops)
+				if what = checkStorage(s, c, v.Names, v.Addrs); what != "" {
+					return
+				}
+				s2 := c.build(v.Ops2)
+				twin := c.build(v.Ops)
+				empty, _ := hostsfile.NewDefaultStorage()
+				var nilS *hostsfile.DefaultStorage
+				switch {
+				case !eqVerdictOK(s.Equal(s2), v.Eq) || !eqVerdictOK(s2.Equal(s), v.Eq):
+					what = fmt.Sprintf("Equal with the storage fed %s is %v / %v, the specification says %s", opsKey(v.Ops2), s.Equal(s2), s2.Equal(s), v.Eq)
+				case !s.Equal(twin) || !twin.Equal(s) || !s.Equal(s):
+					what = "Equal is false for two storages fed the same records"
+				case s.Equal(nilS) || nilS.Equal(s) || !nilS.Equal(nilS) || nilS.Equal(empty):
+					what = "Equal with a nil storage is not as documented"
+				}
+				if what == "" {
+					// the queries must not have changed anything
+					what = checkStorage(s, c, v.Names, v.Addrs)
+				}
+			})
+			if panicked {
+				what = fmt.Sprintf("panic: %v", pv)
+			}
+			if what != "" {
+				key := fmt.Sprintf("storage[x=%v y=%v a=%s A=%s b=%s] %s", c.addr["x"], c.addr["y"], c.name["a"], c.name["A"], c.name["b"], opsKey(v.Ops))
+				res.Mismatch(key, what, map[string]any{"ops": v.Ops, "ops2": v.Ops2, "spec_names": v.Names, "spec_addrs": v.Addrs, "spec_equal": v.Eq})
+			}
+		}
+		mu.Lock()
+		evals += len(stConcs)
+		adds += len(v.Ops) + len(v.Ops2)
+		mu.Unlock()
+		return nil
+	})
+	if err != nil {
+		return err
+	}
+	return res.Close(map[string]any{"vectors": n, "replayed": evals, "distinct_nontrivial": dd.N() - 1, "adds": adds})
+}
+
+// ===================================================================== parse
+
+// fragReader hands out data following a plan of chunk sizes (0 = an empty
+// read returning (0, nil)); what the plan does not cover comes in one final
+// chunk.  eofWithData returns io.EOF together with the last bytes.
+type fragReader struct {
+	data        []byte
+	plan        []int
+	pos, step   int
+	eofWithData bool
+	reads       int
+}
+
+func (r *fragReader) Read(p []byte) (n int, err error) {
+	r.reads++
+	if len(p) == 0 {
+		return 0, nil
+	}
+	if r.pos >= len(r.data) {
+		// pending empty reads before EOF are still played
+		if r.step < len(r.plan) && r.plan[r.step] == 0 {
+			r.step++
+			return 0, nil
+		}
+		return 0, io.EOF
+	}
+	want := len(r.data) - r.pos
+	if r.step < len(r.plan) {
+		if r.plan[r.step] == 0 {
+			r.step++
+			return 0, nil
+		}
+		want = min(want, r.plan[r.step])
+	}
+	n = copy(p, r.data[r.pos:r.pos+want])
+	r.pos += n
+	if r.step < len(r.plan) {
+		r.plan[r.step] -= n
+		if r.plan[r.step] <= 0 {
+			r.step++
+		}
+	}
+	if r.pos >= len(r.data) && r.eofWithData {
+		return n, io.EOF
+	}
+	return n, nil
+}
+
+type namedFragReader struct {
+	fragReader
+	name string
+}
+
+func (r *namedFragReader) Name() string { return r.name }
+
+type frag struct {
+	plan        []int
+	eofWithData bool
+	desc        string
+}
+
+func newReader(data []byte, f frag, name string, named bool) io.Reader {
+	fr := fragReader{data: data, plan: slices.Clone(f.plan), eofWithData: f.eofWithData}
+	if named {
+		return &namedFragReader{fragReader: fr, name: name}
+	}
+	return &fr
+}
+
+func repeatPlan(k, total int) []int {
+	var p []int
+	for n := 0; n < total; n += k {
+		p = append(p, k)
+	}
+	return p
+}
+
+// fragmentations enumerates the reader behaviours for an input of L bytes.
+// full = the complete family (every cut offset), otherwise a small subset.
+func fragmentations(L int, full bool, rng *rand.Rand) []frag {
+	fs := []frag{
+		{nil, false, "whole"},
+		{nil, true, "whole+EOF"},
+		{repeatPlan(1, L), false, "1-byte"},
+		{repeatPlan(1, L), true, "1-byte,last+EOF"},
+		{[]int{0, 0, 0}, false, "3 empty reads, whole"},
+	}
+	if L >= 2 {
+		fs = append(fs, frag{[]int{L / 2, 0, 0}, true, fmt.Sprintf("cut@%d,2 empty reads,+EOF", L/2)})
+	}
+	if !full {
+		if L >= 2 {
+			c := 1 + rng.IntN(L-1)
+			fs = append(fs, frag{[]int{c}, rng.IntN(2) == 0, fmt.Sprintf("cut@%d", c)})
+		}
+		return fs
+	}
+	for c := 1; c < L; c++ {
+		fs = append(fs, frag{[]int{c}, c%2 == 0, fmt.Sprintf("cut@%d", c)})
+	}
+	for _, k := range []int{2, 3, 7} {
+		if k < L {
+			fs = append(fs, frag{repeatPlan(k, L), k%2 == 1, fmt.Sprintf("%d-byte", k)})
+		}
+	}
+	if L <= 120 {
+		var p []int
+		for i := 0; i < L; i++ {
+			p = append(p, 0, 0, 0, 1)
+		}
+		fs = append(fs, frag{append(p, 0, 0, 0), false, "3 empty reads before every byte and before EOF"})
+	}
+	// empty reads around every position of a single cut
+	if L >= 2 {
+		for k := 0; k < 3; k++ {
+			c := 1 + rng.IntN(L-1)
+			fs = append(fs, frag{[]int{0, c, 0, 0, L - c, 0}, k%2 == 0, fmt.Sprintf("empty,cut@%d,2 empty,rest,empty", c)})
+		}
+		for k := 0; k < 3; k++ {
+			var p []int
+			for left := L; left > 0; {
+				c := 1 + rng.IntN(min(left, 9))
+				if rng.IntN(4) == 0 {
+					p = append(p, 0)
+				}
+				p = append(p, c)
+				left -= c
+			}
+			fs = append(fs, frag{p, k%2 == 1, "random chunks"})
+		}
+	}
+	return fs
+}
+
+// recSet is a HandleSet recording everything.
+type invRep struct {
+	src string
+	err error
+}
+type recSet struct {
+	adds []*hostsfile.Record
+	invs []invRep
+}
+
+func (s *recSet) Add(r *hostsfile.Record) { s.adds = append(s.adds, r) }
+func (s *recSet) HandleInvalid(src string, _ []byte, err error) {
+	s.invs = append(s.invs, invRep{src, err})
+}
+
+// lineErrors collects the *LineError values of an error tree.
+func lineErrors(err error, out []*hostsfile.LineError) []*hostsfile.LineError {
+	if err == nil {
+		return out
+	}
+	if le, ok := err.(*hostsfile.LineError); ok {
+		return append(out, le)
+	}
+	switch x := err.(type) {
+	case interface{ Unwrap() []error }:
+		for _, e := range x.Unwrap() {
+			out = lineErrors(e, out)
+		}
+	case interface{ Unwrap() error }:
+		out = lineErrors(x.Unwrap(), out)
+	}
+	return out
+}
+
+// expLine is the specification's prediction for one line, made concrete.
+type expLine struct {
+	No int
+	c07.Expect
+}
+
+// compareRun checks the events of one Parse call against the prediction.
+// adds in call order; invalid reports as (line error) values in any order.
+func compareRun(exp []expLine, srcName string, adds []*hostsfile.Record, invs []error) (what string, err error) {
+	ai := 0
+	type rep struct {
+		le  *hostsfile.LineError
+		err error
+	}
+	byLine := map[int][]rep{}
+	for _, e := range invs {
+		var le *hostsfile.LineError
+		if !errors.As(e, &le) {
+			return fmt.Sprintf("invalid line reported with an error that is not a *LineError: %v", e), nil
+		}
+		byLine[le.Line] = append(byLine[le.Line], rep{le, e})
+	}
+	nInv := 0
+	for _, x := range exp {
+		if x.Kind == "Accept" {
+			if ai >= len(adds) {
+				return fmt.Sprintf("line %d: record not delivered (%d Add calls, more expected)", x.No, len(adds)), nil
+			}
+			rec := adds[ai]
+			ai++
+			if w, herr := c07.CheckRec(rec, x.Expect, true); w != "" || herr != nil {
+				if w != "" {
+					w = fmt.Sprintf("Add call #%d (line %d): %s", ai, x.No, w)
+				}
+				return w, herr
+			}
+			if rec.Source != srcName {
+				return fmt.Sprintf("Add call #%d (line %d): Source = %q, want %q", ai, x.No, rec.Source, srcName), nil
+			}
+			if len(byLine[x.No]) > 0 {
+				return fmt.Sprintf("line %d is well-formed but reported invalid: %v", x.No, byLine[x.No][0].err), nil
+			}
+			continue
+		}
+		nInv++
+		reps := byLine[x.No]
+		if len(reps) != 1 {
+			return fmt.Sprintf("line %d (%s) reported %d times, want exactly once", x.No, x.Kind, len(reps)), nil
+		}
+		if w, herr := c07.CheckErr(reps[0].err, x.Expect); w != "" || herr != nil {
+			if w != "" {
+				w = fmt.Sprintf("line %d: %s", x.No, w)
+			}
+			return w, herr
+		}
+	}
+	if ai != len(adds) {
+		return fmt.Sprintf("%d Add calls, want %d (extra record %v %q)", len(adds), ai, adds[ai].Addr, adds[ai].Names), nil
+	}
+	if len(invs) != nInv {
+		return fmt.Sprintf("%d invalid-line reports, want %d", len(invs), nInv), nil
+	}
+	return "", nil
+}
+
+type parseLineOut struct {
+	No  int `json:"no"`
+	Off int `json:"off"`
+	Len int `json:"len"`
+	c07.Outcome
+}
+
+type parseVec struct {
+	Src [][2]string    `json:"src"`
+	S   []string       `json:"s"`
+	Ev  []parseLineOut `json:"ev"`
+}
+
+// concretiseStream turns the token stream into bytes: the tokens between two
+// LF tokens are concretised as one HostsLine line (CR is one of its tokens),
+// LF is '\n'.
+func concretiseStream(rng *rand.Rand, s []string, mode int) (data []byte, parts []string, err error) {
+	parts = make([]string, 0, len(s))
+	from := 0
+	flush := func(to int) error {
+		c, err := c07.Concretise(rng, s[from:to], mode)
+		if err != nil {
+			return err
+		}
+		parts = append(parts, c.Parts...)
+		return nil
+	}
+	for i, t := range s {
+		if t == "LF" {
+			if err = flush(i); err != nil {
+				return nil, nil, err
+			}
+			parts = append(parts, "\n")
+			from = i + 1
+		}
+	}
+	if err = flush(len(s)); err != nil {
+		return nil, nil, err
+	}
+	return []byte(strings.Join(parts, "")), parts, nil
+}
+
+// expectations instantiates the per-line outcomes on the concrete parts and
+// verifies the abstraction contract for every line the specification cut.
+func expectations(v *parseVec, parts []string) ([]expLine, error) {
+	out := make([]expLine, 0, len(v.Ev))
+	for _, ev := range v.Ev {
+		lp := parts[ev.Off : ev.Off+ev.Len]
+		conc := &c07.Concrete{Parts: lp, Line: []byte(strings.Join(lp, ""))}
+		// (a comment text may be empty, which hides a final CMT token)
+		noCmt := func(t []string) []string {
+			if n := len(t); n >= 2 && t[n-1] == "CMT" && t[n-2] == "HASH" {
+				return t[:n-1]
+			}
+			return t
+		}
+		if got, want := noCmt(c07.Abstract(conc.Line).Tokens), noCmt(c07.Image(v.S[ev.Off:ev.Off+ev.Len])); !slices.Equal(got, want) {
+			return nil, fmt.Errorf("line %d %q abstracts to %v, the specification's line is %v", ev.No, conc.Line, got, want)
+		}
+		e, err := c07.MakeExpect(ev.Outcome, conc)
+		if err != nil {
+			return nil, err
+		}
+		out = append(out, expLine{No: ev.No, Expect: e})
+	}
+	return out, nil
+}
+
+var scanBufs = [][]byte{nil, make([]byte, 3), make([]byte, 0, 64), make([]byte, 16), make([]byte, 1), make([]byte, 200)}
+
+// runParse executes hostsfile.Parse with the given destination kind.
+//
+//	"handle": a HandleSet recording Add and HandleInvalid calls
+//	"plain":  a FuncSet; invalid lines come back joined in the returned error
+//	"storage": a DefaultStorage, compared with one fed the expected records
+func runParse(kind string, data []byte, f frag, named bool, bufIdx int, exp []expLine) (what string, err error) {
+	srcName := ""
+	if named {
+		srcName = "the-source"
+	}
+	rd := newReader(data, f, srcName, named)
+	buf := scanBufs[bufIdx%len(scanBufs)]
+	if buf != nil {
+		buf = make([]byte, len(buf), cap(buf))
+	}
+	var perr error
+	switch kind {
+	case "handle":
+		set := &recSet{}
+		if pv, p := vh.Try(func() { perr = hostsfile.Parse(set, rd, buf) }); p {
+			return fmt.Sprintf("Parse panicked: %v", pv), nil
+		}
+		if perr != nil {
+			return fmt.Sprintf("Parse into a HandleSet returned %v", perr), nil
+		}
+		invs := make([]error, len(set.invs))
+		for i, r := range set.invs {
+			invs[i] = r.err
+		}
+		return compareRun(exp, srcName, set.adds, invs)
+	case "plain":
+		var adds []*hostsfile.Record
+		set := hostsfile.FuncSet(func(r *hostsfile.Record) { adds = append(adds, r) })
+		if pv, p := vh.Try(func() { perr = hostsfile.Parse(set, rd, buf) }); p {
+			return fmt.Sprintf("Parse panicked: %v", pv), nil
+		}
+		les := lineErrors(perr, nil)
+		invs := make([]error, len(les))
+		for i, le := range les {
+			invs[i] = le
+		}
+		if perr != nil && len(les) == 0 {
+			return fmt.Sprintf("Parse returned %v without any *LineError", perr), nil
+		}
+		return compareRun(exp, srcName, adds, invs)
+	case "storage":
+		ds, _ := hostsfile.NewDefaultStorage()
+		if pv, p := vh.Try(func() { perr = hostsfile.Parse(ds, rd, buf) }); p {
+			return fmt.Sprintf("Parse panicked: %v", pv), nil
+		}
+		if perr != nil {
+			return fmt.Sprintf("Parse into a DefaultStorage returned %v", perr), nil
+		}
+		want, _ := hostsfile.NewDefaultStorage()
+		for _, x := range exp {
+			if x.Kind != "Accept" {
+				continue
+			}
+			a, aerr := netip.ParseAddr(x.Addr)
+			if aerr != nil {
+				return "", fmt.Errorf("spec says Accept but netip.ParseAddr rejects %q", x.Addr)
+			}
+			want.Add(&hostsfile.Record{Addr: a, Names: slices.Clone(x.Names), Source: srcName})
+		}
+		if !ds.Equal(want) {
+			return "the DefaultStorage filled by Parse differs (Equal) from one fed the records of the well-formed lines", nil
+		}
+		for _, x := range exp {
+			if x.Kind != "Accept" {
+				continue
+			}
+			a, _ := netip.ParseAddr(x.Addr)
+			if g, w := ds.ByAddr(a), want.ByAddr(a); !slices.Equal(g, w) {
+				return fmt.Sprintf("after Parse ByAddr(%v) = %q, want %q", a, g, w), nil
+			}
+			for _, n := range x.Names {
+				if g, w := ds.ByName(n), want.ByName(n); !slices.Equal(g, w) {
+					return fmt.Sprintf("after Parse ByName(%q) = %v, want %v", n, g, w), nil
+				}
+			}
+		}
+		return "", nil
+	}
+	return "", fmt.Errorf("unknown destination kind %q", kind)
+}
+
+func replayParse(args []string) error {
+	if len(args) != 2 {
+		return fmt.Errorf("usage: replay-parse <vectors> <result>")
+	}
+	if _, err := c07.GetTables(); err != nil {
+		return err
+	}
+	res, err := vh.NewResult(args[1])
+	if err != nil {
+		return err
+	}
+	var mu sync.Mutex
+	parses, frags, sampled := 0, 0, 0
+	n, dd, err := c07.ParallelVectors(args[0], func(raw []byte) error {
+		var v parseVec
+		if err := json.Unmarshal(raw, &v); err != nil {
+			return err
+		}
+		np, nf := 0, 0
+		for variant := 0; variant < 2; variant++ {
+			rng := c07.RandFor(raw, uint64(variant))
+			data, parts, err := concretiseStream(rng, v.S, variant)
+			if err != nil {
+				return err
+			}
+			exp, err := expectations(&v, parts)
+			if err != nil {
+				return err
+			}
+			report := func(kind string, f frag, named bool, what string) {
+				key := fmt.Sprintf("Parse(%s, %s%s) of %s", kind, map[bool]string{true: "named reader ", false: "plain reader "}[named], f.desc, strconv.QuoteToASCII(string(data)))
+				res.Mismatch(key, what, map[string]any{"source": v.Src, "stream": v.S, "spec_lines": v.Ev, "bytes": string(data), "fragmentation": f.desc, "plan": f.plan, "eof_with_data": f.eofWithData})
+			}
+			// Variant 0 (plain representatives, short input): the complete
+			// family of fragmentations; variant 1 (boundary names, IDN, long
+			// input): the small family.  Named and plain readers alternate,
+			// the first six behaviours get both.
+			full := fragmentations(len(data), variant == 0, rng)
+			nf += len(full)
+			for i, f := range full {
+				for k, named := range []bool{i%2 == 0, i%2 != 0} {
+					if k == 1 && i >= 6 {
+						break
+					}
+					what, err := runParse("handle", data, f, named, i, exp)
+					if err != nil {
+						return fmt.Errorf("%q: %w", data, err)
+					}
+					np++
+					if what != "" {
+						report("HandleSet", f, named, what)
+					}
+				}
+			}
+			for i, f := range fragmentations(len(data), false, rng) {
+				for _, kind := range []string{"plain", "storage"} {
+					named := (i+variant)%2 == 0
+					what, err := runParse(kind, data, f, named, i+1, exp)
+					if err != nil {
+						return fmt.Errorf("%q: %w", data, err)
+					}
+					np++
+					if what != "" {
+						report(map[string]string{"plain": "FuncSet", "storage": "DefaultStorage"}[kind], f, named, what)
+					}
+				}
+			}
+			mu.Lock()
+			if sampled < 3 && len(v.Ev) >= 3 && variant == 1 {
+				sampled++
+				res.Sample(map[string]any{"source": v.Src, "bytes": strconv.QuoteToASCII(string(data)), "spec_lines": v.Ev})
+			}
+			mu.Unlock()
+		}
+		mu.Lock()
+		parses += np
+		frags += nf
+		mu.Unlock()
+		return nil
+	})
+	if err != nil {
+		return err
+	}
+	return res.Close(map[string]any{"vectors": n, "replayed": parses, "fragmentations": frags, "distinct_nontrivial": dd.N() - 1})
+}
+
+// ========================================================================= T
+
+// abstractStream cuts data at '\n' (nothing else is decided here), logs one
+// CR before an LF / the end as the token CR and abstracts the rest of every
+// segment with the C07 abstractor.  segs are the abstracted segments.
+func abstractStream(data []byte) (toks []string, segs []c07.Abstracted, segText [][]byte) {
+	toks = []string{}
+	rest := data
+	for len(rest) > 0 {
+		i := bytes.IndexByte(rest, '\n')
+		seg := rest
+		if i >= 0 {
+			seg = rest[:i]
+		}
+		body := seg
+		cr := false
+		if len(body) > 0 && body[len(body)-1] == '\r' {
+			body, cr = body[:len(body)-1], true
+		}
+		a := c07.Abstract(body)
+		toks = append(toks, a.Tokens...)
+		if cr {
+			toks = append(toks, "CR")
+		}
+		segs = append(segs, a)
+		segText = append(segText, body)
+		if i < 0 {
+			break
+		}
+		toks = append(toks, "LF")
+		rest = rest[i+1:]
+	}
+	return toks, segs, segText
+}
+
+// randomInput builds a multi-line input.
+func randomInput(rng *rand.Rand, tb *c07.Tables, maxLines int) []byte {
+	var b []byte
+	nl := rng.IntN(maxLines + 1)
+	if rng.IntN(3) == 0 {
+		nl = rng.IntN(6)
+	}
+	crlf := rng.IntN(3) // 0: LF, 1: CRLF, 2: mixed
+	for i := 0; i < nl; i++ {
+		switch r := rng.IntN(40); {
+		case r < 4:
+			// empty line
+		case r < 6:
+			b = append(b, '#')
+			b = append(b, c07.RandomLine(rng, tb, 3)...)
+		case r == 6:
+			// a very long line (still below bufio.MaxScanTokenSize)
+			b = append(b, "10.0.0.1 "...)
+			b = append(b, bytes.Repeat([]byte{'k'}, 20000+rng.IntN(40000))...)
+		case r == 7:
+			b = append(b, "::1 localhost #"...)
+			b = append(b, bytes.Repeat([]byte{'c', ' '}, 5000+rng.IntN(20000))...)
+		default:
+			b = append(b, c07.RandomLine(rng, tb, 4)...)
+		}
+		last := i == nl-1
+		switch {
+		case last && rng.IntN(3) == 0:
+			// no final newline
+			if rng.IntN(4) == 0 {
+				b = append(b, '\r')
+			}
+		case crlf == 1 || (crlf == 2 && rng.IntN(2) == 0):
+			b = append(b, '\r', '\n')
+		default:
+			b = append(b, '\n')
+		}
+	}
+	return b
+}
+
+func randomFrag(rng *rand.Rand, L int) frag {
+	f := frag{eofWithData: rng.IntN(2) == 0, desc: "random"}
+	switch rng.IntN(5) {
+	case 0:
+		return f
+	case 1:
+		f.plan = repeatPlan(1, min(L, 3000))
+		return f
+	}
+	maxc := []int{2, 5, 17, 100, 5000}[rng.IntN(5)]
+	for left := L; left > 0 && len(f.plan) < 20000; {
+		c := 1 + rng.IntN(min(left, maxc))
+		for z := 0; z < 3 && rng.IntN(8) == 0; z++ {
+			f.plan = append(f.plan, 0)
+		}
+		f.plan = append(f.plan, c)
+		left -= c
+	}
+	if rng.IntN(3) == 0 {
+		f.plan = append(f.plan, 0, 0)
+	}
+	return f
+}
+
+type parseEv struct {
+	Op    string   `json:"op"`
+	I     int      `json:"i"`
+	S     []string `json:"s"`
+	Named bool     `json:"named"`
+	Dst   string   `json:"dst"`
+	Line  int      `json:"line"`
+	Kind  string   `json:"kind"`
+	N     int      `json:"n"`
+	OK    bool     `json:"ok"`
+	Match []int    `json:"match"`
+	Bad   []int    `json:"bad"`
+	Note  string   `json:"note"`
+}
+
+func recordParse(args []string) error {
+	if len(args) != 3 {
+		return fmt.Errorf("usage: record-parse <trace-out> <result> <inputs>")
+	}
+	ni, err := strconv.Atoi(args[2])
+	if err != nil {
+		return err
+	}
+	tb, err := c07.GetTables()
+	if err != nil {
+		return err
+	}
+	tr, err := vh.NewTrace(args[0])
+	if err != nil {
+		return err
+	}
+	res, err := vh.NewResult(args[1])
+	if err != nil {
+		return err
+	}
+	rng := vh.Rand(8)
+	lines, bytesTotal, reads, recorded := 0, 0, 0, 0
+	for i := 0; i < ni; i++ {
+		maxLines := 12
+		if i%10 == 0 {
+			maxLines = 200
+		}
+		data := randomInput(rng, tb, maxLines)
+		toks, segs, _ := abstractStream(data)
+		if len(toks) > 2500 {
+			continue
+		}
+		recorded++
+		named := rng.IntN(3) > 0
+		plain := rng.IntN(4) == 0
+		srcName := ""
+		if named {
+			srcName = "the-source"
+		}
+		f := randomFrag(rng, len(data))
+		rd := newReader(data, f, srcName, named)
+		var buf []byte
+		if rng.IntN(2) == 0 {
+			buf = make([]byte, 1+rng.IntN(300))
+		}
+		dst := "handle"
+		if plain {
+			dst = "plain"
+		}
+		tr.Emit(parseEv{Op: "src", I: i, S: toks, Named: named, Dst: dst, OK: true, Match: []int{}, Bad: []int{}})
+		var adds []*hostsfile.Record
+		var invs []error
+		var perr error
+		endOK, endNote := true, ""
+		pv, panicked := vh.Try(func() {
+			if plain {
+				perr = hostsfile.Parse(hostsfile.FuncSet(func(r *hostsfile.Record) { adds = append(adds, r) }), rd, buf)
+				for _, le := range lineErrors(perr, nil) {
+					invs = append(invs, le)
+				}
+				if perr != nil && len(invs) == 0 {
+					endOK, endNote = false, fmt.Sprintf("returned %v without *LineError", perr)
+				}
+			} else {
+				set := &recSet{}
+				perr = hostsfile.Parse(set, rd, buf)
+				adds = set.adds
+				for _, r := range set.invs {
+					invs = append(invs, r.err)
+				}
+				if perr != nil {
+					endOK, endNote = false, fmt.Sprintf("returned %v", perr)
+				}
+			}
+		})
+		if panicked {
+			endOK, endNote = false, fmt.Sprintf("panic: %v", pv)
+		}
+		// Add calls in call order: the record carries no line number, so the
+		// harness logs every line whose fields (as cut on space / tab / '#')
+		// are exactly the record; the specification decides which line the
+		// k-th Add call has to come from.
+		for _, rec := range adds {
+			ev := parseEv{Op: "add", I: i, S: []string{}, Kind: "Accept", N: len(rec.Names), OK: rec.Source == srcName, Match: []int{}, Bad: []int{}}
+			if !ev.OK {
+				ev.Note = fmt.Sprintf("Source %q, want %q", rec.Source, srcName)
+			}
+			for li := range segs {
+				a := &segs[li]
+				if len(a.Fields) != len(rec.Names)+1 || !slices.Equal(a.Fields[1:], rec.Names) {
+					continue
+				}
+				if want, aerr := netip.ParseAddr(a.Fields[0]); aerr == nil && want == rec.Addr {
+					ev.Match = append(ev.Match, li+1)
+				}
+			}
+			tr.Emit(ev)
+		}
+		// Invalid-line reports sorted by the line number they carry.
+		var invEvs []parseEv
+		for _, e := range invs {
+			ev := parseEv{Op: "inv", I: i, S: []string{}, Line: -1, Kind: "?", OK: true, Match: []int{}, Bad: []int{}}
+			var le *hostsfile.LineError
+			if !errors.As(e, &le) {
+				ev.OK, ev.Note = false, fmt.Sprintf("not a *LineError: %v", e)
+				invEvs = append(invEvs, ev)
+				continue
+			}
+			ev.Line, ev.Kind = le.Line, c07.KindOf(e)
+			if le.Line >= 1 && le.Line <= len(segs) {
+				a := &segs[le.Line-1]
+				switch ev.Kind {
+				case "NameErr":
+					var ae *netutil.AddrError
+					errors.As(e, &ae)
+					for k, f := range a.Fields {
+						if f == ae.Addr {
+							ev.Bad = append(ev.Bad, k+1)
+						}
+					}
+				case "AddrErr":
+					if len(a.Fields) > 0 {
+						if w, _ := c07.CheckErr(e, c07.Expect{Kind: "AddrErr", Addr: a.Fields[0]}); w != "" {
+							ev.OK, ev.Note = false, w
+						}
+					}
+				}
+			}
+			invEvs = append(invEvs, ev)
+		}
+		sort.SliceStable(invEvs, func(x, y int) bool { return invEvs[x].Line < invEvs[y].Line })
+		for _, ev := range invEvs {
+			tr.Emit(ev)
+		}
+		tr.Emit(parseEv{Op: "end", I: i, S: []string{}, OK: endOK, Note: endNote, Match: []int{}, Bad: []int{}})
+		lines += len(segs)
+		bytesTotal += len(data)
+		if fr, ok := rd.(*fragReader); ok {
+			reads += fr.reads
+		} else {
+			reads += rd.(*namedFragReader).reads
+		}
+		if i%97 == 0 {
+			s := strconv.QuoteToASCII(string(data))
+			if len(s) > 300 {
+				s = s[:300] + "..."
+			}
+			res.Sample(map[string]any{"input": s, "lines": len(segs), "adds": len(adds), "invalid": len(invs), "reader": f.desc, "eof_with_data": f.eofWithData})
+		}
+	}
+	if err := tr.Close(); err != nil {
+		return err
+	}
+	return res.Close(map[string]any{"events": tr.N, "inputs": recorded, "lines": lines, "bytes": bytesTotal, "reads": reads})
+}
+
+// ------------------------------------------------------------ storage traces
+
+type stObs struct {
+	ByAddr [][][2]int `json:"byaddr"`
+	ByName [][]int    `json:"byname"`
+	Same   bool       `json:"same"`
+	RNames []any      `json:"rnames"`
+	RAddrs []any      `json:"raddrs"`
+	Note   string     `json:"note"`
+}
+
+type stEv struct {
+	Op   string   `json:"op"`
+	H    int      `json:"h"`
+	S    int      `json:"s"`
+	A    int      `json:"a"`
+	N    [][2]int `json:"n"`
+	O1   stObs    `json:"o1"`
+	O2   stObs    `json:"o2"`
+	Eq12 bool     `json:"eq12"`
+	Eq21 bool     `json:"eq21"`
+}
+
+// nameUniverse: id -> spellings differing in case only.
+type universe struct {
+	addrs  []netip.Addr // index 1..
+	names  [][]string   // [id][variant]
+	byName map[string][2]int
+	byAddr map[netip.Addr]int
+}
+
+func newUniverse(rng *rand.Rand, na, nn int) *universe {
+	pool := []string{"1.2.3.4", "::1", "fe80::1%eth0", "fe80::1", "::ffff:1.2.3.4", "10.0.0.1", "2001:db8::1", "fe80::1%eth1", "0.0.0.0", "::"}
+	stems := []string{"host.example", "пример.рф", "a", "b.c", "bücher.example", "xn--e1afmkfd.xn--p1ai", "_srv.example.com", "x-1.y", "localhost", "ελλάδα.gr", "z", "q.w.e"}
+	rng.Shuffle(len(pool), func(i, j int) { pool[i], pool[j] = pool[j], pool[i] })
+	rng.Shuffle(len(stems), func(i, j int) { stems[i], stems[j] = stems[j], stems[i] })
+	u := &universe{byName: map[string][2]int{}, byAddr: map[netip.Addr]int{}}
+	u.addrs = append(u.addrs, netip.Addr{})
+	for i := 0; i < na; i++ {
+		a := mustAddr(pool[i])
+		u.addrs = append(u.addrs, a)
+		u.byAddr[a] = i + 1
+	}
+	u.names = append(u.names, nil)
+	for i := 0; i < nn; i++ {
+		vs := caseVariants(stems[i])
+		u.names = append(u.names, vs)
+		for v, s := range vs {
+			if _, dup := u.byName[s]; !dup {
+				u.byName[s] = [2]int{i + 1, v}
+			}
+		}
+	}
+	return u
+}
+
+func (u *universe) observe(s *hostsfile.DefaultStorage) (o stObs) {
+	o.Same = true
+	o.ByAddr = append(o.ByAddr, nil)[:0]
+	absNames := func(ns []string) [][2]int {
+		out := make([][2]int, 0, len(ns))
+		for _, n := range ns {
+			id, ok := u.byName[n]
+			if !ok {
+				id = [2]int{0, 0}
+			}
+			out = append(out, id)
+		}
+		return out
+	}
+	absAddrs := func(as []netip.Addr) []int {
+		out := make([]int, 0, len(as))
+		for _, a := range as {
+			out = append(out, u.byAddr[a])
+		}
+		return out
+	}
+	for a := 1; a < len(u.addrs); a++ {
+		o.ByAddr = append(o.ByAddr, absNames(s.ByAddr(u.addrs[a])))
+	}
+	// the model has 8 addresses
+	for len(o.ByAddr) < 8 {
+		o.ByAddr = append(o.ByAddr, [][2]int{})
+	}
+	for id := 1; id < len(u.names); id++ {
+		var first []netip.Addr
+		for v, sp := range u.names[id] {
+			got := s.ByName(sp)
+			if v == 0 {
+				first = got
+			} else if !slices.Equal(got, first) {
+				o.Same = false
+				o.Note = fmt.Sprintf("ByName(%q) = %v but ByName(%q) = %v", sp, got, u.names[id][0], first)
+			}
+		}
+		o.ByName = append(o.ByName, absAddrs(first))
+	}
+	for len(o.ByName) < 12 {
+		o.ByName = append(o.ByName, []int{})
+	}
+	o.RNames, o.RAddrs = []any{}, []any{}
+	s.RangeNames(func(a netip.Addr, ns []string) bool {
+		o.RNames = append(o.RNames, []any{u.byAddr[a], absNames(ns)})
+		return true
+	})
+	s.RangeAddrs(func(h string, as []netip.Addr) bool {
+		id := 0
+		for i := 1; i < len(u.names); i++ {
+			if strings.EqualFold(u.names[i][0], h) {
+				id = i
+			}
+		}
+		o.RAddrs = append(o.RAddrs, []any{id, absAddrs(as)})
+		return true
+	})
+	return o
+}
+
+func recordStorage(args []string) error {
+	if len(args) != 4 {
+		return fmt.Errorf("usage: record-storage <trace-out> <result> <histories> <steps>")
+	}
+	nh, _ := strconv.Atoi(args[2])
+	ns, _ := strconv.Atoi(args[3])
+	tr, err := vh.NewTrace(args[0])
+	if err != nil {
+		return err
+	}
+	res, err := vh.NewResult(args[1])
+	if err != nil {
+		return err
+	}
+	rng := vh.Rand(9)
+	for h := 0; h < nh; h++ {
+		u := newUniverse(rng, 2+rng.IntN(6), 2+rng.IntN(10))
+		st := [3]*hostsfile.DefaultStorage{}
+		st[1], _ = hostsfile.NewDefaultStorage()
+		st[2], _ = hostsfile.NewDefaultStorage()
+		emit := func(e stEv) bool {
+			pv, panicked := vh.Try(func() {
+				e.O1, e.O2 = u.observe(st[1]), u.observe(st[2])
+				e.Eq12, e.Eq21 = st[1].Equal(st[2]), st[2].Equal(st[1])
+			})
+			if panicked {
+				res.Mismatch(fmt.Sprintf("storage-record h=%d", h), fmt.Sprintf("panic: %v", pv), e)
+				return false
+			}
+			tr.Emit(e)
+			return true
+		}
+		if !emit(stEv{Op: "new", H: h, N: [][2]int{}}) {
+			continue
+		}
+		// the second storage mostly mirrors the first so that Equal is exercised near equality
+		mirror := rng.IntN(3) > 0
+		for s := 0; s < ns; s++ {
+			e := stEv{Op: "add", H: h, S: 1 + rng.IntN(2), A: 1 + rng.IntN(len(u.addrs)-1), N: [][2]int{}}
+			var names []string
+			for k := []int{0, 1, 1, 1, 2, 2, 3, 5}[rng.IntN(8)]; k > 0; k-- {
+				id := 1 + rng.IntN(len(u.names)-1)
+				v := rng.IntN(len(u.names[id]))
+				// log the canonical variant index of the spelling
+				sp := u.names[id][v]
+				e.N = append(e.N, u.byName[sp])
+				names = append(names, sp)
+			}
+			rec := &hostsfile.Record{Addr: u.addrs[e.A], Names: names, Source: "t"}
+			if mirror && rng.IntN(8) > 0 {
+				// apply to both, logging two events
+				e.S = 1
+				st[1].Add(rec)
+				if !emit(e) {
+					break
+				}
+				e.S = 2
+				st[2].Add(&hostsfile.Record{Addr: rec.Addr, Names: slices.Clone(names)})
+				if !emit(e) {
+					break
+				}
+				continue
+			}
+			st[e.S].Add(rec)
+			if !emit(e) {
+				break
+			}
+		}
+	}
+	if err := tr.Close(); err != nil {
+		return err
+	}
+	return res.Close(map[string]any{"events": tr.N, "histories": nh})
+}
